@@ -87,7 +87,18 @@ def write_pcapng(items, cfg):
         out.append(_block(e, 1, struct.pack(e + "HHI", cfg["first_idb_linktype"], 0, cfg.get("snaplen", 0x40000)) + opts))
         ifid = 1
     out.append(_block(e, 1, idb + opts))
+    npk = 0
+    sec_at = cfg.get("sections")
     for it in items:
+        if it[0] == "pkt":
+            npk += 1
+            if sec_at is not None and npk == sec_at + 1:
+                # a second section starts here (two captures of the same interface written one after the other):
+                # section header and interface description are repeated
+                out.append(_block(e, 0x0A0D0D0A, shb_body))
+                if ifid:
+                    out.append(_block(e, 1, struct.pack(e + "HHI", cfg["first_idb_linktype"], 0, cfg.get("snaplen", 0x40000)) + opts))
+                out.append(_block(e, 1, idb + opts))
         if it[0] == "pkt":
             _, ts_us, fr = it
             u = ts_units(ts_us, cfg)
@@ -136,6 +147,10 @@ def write_pcapng(items, cfg):
                 raise ValueError(kind)
         else:
             raise ValueError(it[0])
+    if cfg.get("trailing_section"):
+        # a further (empty) section behind everything: header and interface description only
+        out.append(_block(e, 0x0A0D0D0A, shb_body))
+        out.append(_block(e, 1, idb + opts))
     return b"".join(out)
 
 
